@@ -19,6 +19,7 @@ KIND = {"oct": "KOct", "RSA": "KRSA", "EC": "KEC", "OKP": "KOKP"}
 SPEC_PRIVATE = {"oct": ["k"], "RSA": ["d", "p", "q", "dp", "dq", "qi", "oth"], "EC": ["d"], "OKP": ["d"]}
 EC_CURVES = ["P-256", "P-384", "P-521", "secp256k1"]
 OKP_CURVES = ["Ed25519", "Ed448", "X25519", "X448"]
+_drafts_registered = []
 MIN_SECRET = 8          # shorter values give false positives
 
 RSA_LITERAL = {   # RFC 7520 section 3.4
@@ -159,6 +160,29 @@ B64URL_RE = re.compile(rb"^[A-Za-z0-9_-]+={0,2}$")
 B64STD_RE = re.compile(rb"^[A-Za-z0-9+/]+={0,2}$")
 
 
+B64RUN_RE = re.compile(rb"[A-Za-z0-9+/_-]{16,}")
+_TO_STD = bytes.maketrans(b"-_", b"+/")
+
+
+def text_views(blob: bytes):
+    """Further views of a text-like blob: white space (also written as \\n / \\r escapes) removed, so
+    that PEM body lines are joined again, and every run of base64 characters decoded at all four
+    character offsets, so that raw windows of a secret are visible whatever the alignment."""
+    views = []
+    compact = re.sub(rb"(\\n|\\r|\s)+", b"", blob)
+    if compact != blob:
+        views.append(compact)
+    for m in B64RUN_RE.finditer(compact):
+        run = m.group(0).translate(_TO_STD)
+        for off in range(4):
+            chunk = run[off:]
+            chunk = chunk[:len(chunk) // 4 * 4]
+            if len(chunk) >= 16:
+                with contextlib.suppress(Exception):
+                    views.append(base64.b64decode(chunk))
+    return views
+
+
 def haystacks(out, depth=0):
     """Every octet string in which a leak would be visible: the output itself,
     its dot-separated segments, its JSON members, and what those decode to."""
@@ -179,6 +203,8 @@ def haystacks(out, depth=0):
         return hs + [repr(out).encode()]
     out = bytes(out)
     hs.append(out)
+    if depth <= 2:
+        hs += text_views(out)
     if out.startswith(b"-----BEGIN"):
         body = b"".join(l for l in out.splitlines() if l and not l.startswith(b"-----"))
         with contextlib.suppress(Exception):
@@ -369,12 +395,18 @@ class Entry:
         self.noncanonical = "-noncanon-" in name
         self.native, self.public_only = native, public_only
         self.key = key if key is not None else make_key(recipe)
+        self.key.dict_value         # (validates lazily built views: a key whose JWK view cannot be built is not in the zoo)
         self.secrets = native_secrets(kty, native) if native is not None else []
 
     def fresh(self):
         """a new key object from the same material (exports mutate: ensure_kid)"""
         if self.recipe["how"].startswith("generate"):
             return self.key
+        if self.kty == "RSA" and not self.public_only:
+            # importing an RSA private key costs 50-300 ms (pyca consistency checks, prime recovery): after the
+            # first real import, new objects are built by the key class constructor around the same native key
+            k = self.key
+            return type(k)(k.raw_value, k.original_value, k.extra_parameters)
         return make_key(self.recipe)
 
 
@@ -413,6 +445,12 @@ def build_zoo(ctx):
         add("oct%d-generated" % n, "oct", None, {"kty": "oct", "how": "generate", "data": n * 8, "parameters": p},
             g.raw_value, False, key=g)
 
+    for n in (24, 48):          # sizes of A192KW / A192GCMKW / A192GCM / A192CBC-HS384
+        raw = bytes(rng.randrange(256) for _ in range(n))
+        add("oct%d-bytes" % n, "oct", None, {"kty": "oct", "how": "bytes", "data": raw.hex(), "parameters": None}, raw, False)
+        add("oct%d-jwk-params-named-private" % n, "oct", None,
+            {"kty": "oct", "how": "jwk", "data": json.dumps(native_jwk("oct", raw)), "parameters": {"d": "caller-d", "p": "caller-p"}}, raw, False)
+
     def asym(kty, crv, native, tag, generated=None, gen_params=None):
         if generated is not None:
             add("%s-generated" % tag, kty, crv, {"kty": kty, "how": "generate", "data": crv, "parameters": gen_params},
@@ -431,6 +469,10 @@ def build_zoo(ctx):
             native, True)
         add("%s-pub-der" % tag, kty, crv, {"kty": kty, "how": "der", "data": native_bytes(native, False, True).hex(), "parameters": None},
             native, True)
+        # a private key whose extra parameters are named like private members of OTHER key types (not private here)
+        add("%s-pem-params-named-foreign" % tag, kty, crv,
+            {"kty": kty, "how": "pem", "data": native_bytes(native, True, False).decode(),
+             "parameters": {"k": "caller-k"} if kty == "RSA" else {"k": "caller-k", "p": "caller-p", "qi": "caller-qi"}}, native, False)
         # a public-only key whose EXTRA parameters are named like private members: the filter is driven by
         # the registry, not by is_private, so they are stripped from a public export as well
         named = {"RSA": {"d": "caller-d", "qi": "caller-qi", "x-keep": "kept"}, "EC": {"d": "caller-d", "x-keep": "kept"},
@@ -467,7 +509,17 @@ def build_zoo(ctx):
     add("rsa2048-jwk-nocrt", "RSA", 2048,
         {"kty": "RSA", "how": "jwk", "data": json.dumps(native_jwk("RSA", g.private_key, crt=False)), "parameters": None},
         g.private_key, False)
-    # (an RSA JWK carrying "oth" cannot be imported at all: its registry validator refuses the member)
+    # an RSA key carrying "oth" (other primes info, flagged private): refused by the registry validator today; the
+    # attempts are made on every run so that such keys join the zoo (with the oth values as secrets) once they import
+    oth = [{"r": b64u(bytes(rng.randrange(256) for _ in range(24))), "d": b64u(bytes(rng.randrange(256) for _ in range(24))),
+            "t": b64u(bytes(rng.randrange(256) for _ in range(24)))}]
+    for nm, rec in (("rsa2048-jwk-oth", {"kty": "RSA", "how": "jwk", "data": json.dumps({**native_jwk("RSA", g.private_key), "oth": oth}), "parameters": None}),
+                    ("rsa2048-pem-params-oth", {"kty": "RSA", "how": "pem", "data": native_bytes(g.private_key, True, False).decode(), "parameters": {"oth": oth}}),
+                    ("rsa2048-pub-pem-params-oth", {"kty": "RSA", "how": "pem", "data": native_bytes(g.private_key, False, False).decode(), "parameters": {"oth": oth}})):
+        n0 = len(zoo)
+        add(nm, "RSA", 2048, rec, g.private_key, "pub" in nm)
+        if len(zoo) > n0:
+            zoo[-1].secrets += mk_secrets([("oth." + m, unb64u(v)) for m, v in oth[0].items()])
     lit = RSAKey.import_key(dict(RSA_LITERAL))
     add("rsa-literal", "RSA", 2048, {"kty": "RSA", "how": "jwk", "data": json.dumps(RSA_LITERAL), "parameters": None},
         lit.private_key, False)
@@ -604,37 +656,135 @@ CLAIMS = {"iss": "c12", "n": 12}
 CALLER_PARAMS = {"use": "sig", "kid": "caller-kid", "x-caller": [1, "two", {"three": None}]}
 
 
+# every registered algorithm must be tabled here (fail closed: an unknown name is reported)
+JWS_TABLE = {"none": None,
+             "HS256": ("oct", None), "HS384": ("oct", None), "HS512": ("oct", None),
+             "RS256": ("RSA", None), "RS384": ("RSA", None), "RS512": ("RSA", None),
+             "PS256": ("RSA", None), "PS384": ("RSA", None), "PS512": ("RSA", None),
+             "ES256": ("EC", ("P-256",)), "ES384": ("EC", ("P-384",)), "ES512": ("EC", ("P-521",)), "ES256K": ("EC", ("secp256k1",)),
+             "EdDSA": ("OKP", ("Ed25519", "Ed448"))}
+JWE_ALG_TABLE = {"RSA1_5": "rsa", "RSA-OAEP": "rsa", "RSA-OAEP-256": "rsa",
+                 "A128KW": ("kw", 16), "A192KW": ("kw", 24), "A256KW": ("kw", 32),
+                 "A128GCMKW": ("kw", 16), "A192GCMKW": ("kw", 24), "A256GCMKW": ("kw", 32),
+                 "dir": "dir",
+                 "PBES2-HS256+A128KW": "pbes2", "PBES2-HS384+A192KW": "pbes2", "PBES2-HS512+A256KW": "pbes2",
+                 "ECDH-ES": "agree", "ECDH-ES+A128KW": "agree", "ECDH-ES+A192KW": "agree", "ECDH-ES+A256KW": "agree",
+                 "ECDH-1PU": "agree1pu", "ECDH-1PU+A128KW": "agree1pu", "ECDH-1PU+A192KW": "agree1pu", "ECDH-1PU+A256KW": "agree1pu"}
+JWE_ENC_TABLE = {"A128CBC-HS256": 32, "A192CBC-HS384": 48, "A256CBC-HS512": 64, "A128GCM": 16, "A192GCM": 24, "A256GCM": 32}
+JWE_ZIP_TABLE = {"DEF"}
+
+
+def register_drafts():
+    if not _drafts_registered:
+        from joserfc.drafts.jwe_ecdh_1pu import register_ecdh_1pu
+        register_ecdh_1pu()
+        _drafts_registered.append(True)
+
+
+def untabled_algorithms():
+    from joserfc import jws, jwe
+    register_drafts()
+    out = sorted(set(jws.JWSRegistry.algorithms) - set(JWS_TABLE))
+    out += sorted(set(jwe.JWERegistry.algorithms["alg"]) - set(JWE_ALG_TABLE))
+    out += sorted(set(jwe.JWERegistry.algorithms["enc"]) - set(JWE_ENC_TABLE))
+    out += sorted(set(jwe.JWERegistry.algorithms["zip"]) - JWE_ZIP_TABLE)
+    return out
+
+
 def sig_algs(e):
-    if e.kty == "oct":
-        return ["HS256", "HS384", "HS512"]
-    if e.kty == "RSA":
-        return ["RS256", "PS256"]
-    if e.kty == "EC":
-        return [{"P-256": "ES256", "P-384": "ES384", "P-521": "ES512", "secp256k1": "ES256K"}[e.crv]]
-    if e.kty == "OKP" and e.crv in ("Ed25519", "Ed448"):
-        return ["EdDSA"]
-    return []
+    from joserfc import jws
+    out = []
+    for name in jws.JWSRegistry.algorithms:
+        t = JWS_TABLE.get(name)
+        if t and t[0] == e.kty and (t[1] is None or e.crv in t[1]):
+            out.append(name)
+    return out
 
 
 def enc_algs(e):
-    """(alg, enc) pairs usable with this key"""
-    if e.kty == "oct":
-        n = len(e.native)
-        out = [("PBES2-HS256+A128KW", "A128GCM")]
-        if n == 16:
-            out += [("A128KW", "A128GCM"), ("dir", "A128GCM"), ("A128GCMKW", "A128CBC-HS256")]
-        if n == 32:
-            out += [("A256KW", "A256GCM"), ("dir", "A128CBC-HS256"), ("dir", "A256GCM"), ("A256GCMKW", "A128GCM")]
-        if n == 64:
-            out += [("dir", "A256CBC-HS512")]
-        return out
-    if e.kty == "RSA":
-        return [("RSA-OAEP", "A128GCM"), ("RSA-OAEP-256", "A128CBC-HS256"), ("RSA1_5", "A128GCM")]
-    if e.kty == "EC":
-        return [("ECDH-ES", "A128GCM"), ("ECDH-ES+A128KW", "A128CBC-HS256"), ("ECDH-ES", "A256CBC-HS512")]
-    if e.kty == "OKP" and e.crv in ("X25519", "X448"):
-        return [("ECDH-ES", "A128GCM"), ("ECDH-ES+A128KW", "A128GCM"), ("ECDH-ES+A256KW", "A256GCM")]
-    return []
+    """(alg, enc) pairs usable with this key: every registered key management algorithm"""
+    from joserfc import jwe
+    register_drafts()
+    encs = sorted(n for n in jwe.JWERegistry.algorithms["enc"] if n in JWE_ENC_TABLE)
+    out = []
+    i = sum(map(ord, e.name))          # rotate the content encryption algorithm over the zoo
+
+    def some_enc(cbc_only=False):
+        nonlocal i
+        pool = [x for x in encs if not cbc_only or "CBC" in x]
+        i += 1
+        return pool[i % len(pool)]
+    for alg in jwe.JWERegistry.algorithms["alg"]:
+        t = JWE_ALG_TABLE.get(alg)
+        if t is None:
+            continue
+        if e.kty == "oct":
+            n = len(e.native)
+            if isinstance(t, tuple) and t[1] == n:
+                out.append((alg, some_enc()))
+            elif t == "dir":
+                out += [(alg, x) for x in encs if JWE_ENC_TABLE[x] == n]
+            elif t == "pbes2":
+                out.append((alg, some_enc()))
+        elif e.kty == "RSA" and t == "rsa":
+            out.append((alg, some_enc()))
+        elif t in ("agree", "agree1pu") and agreement_capable(e):
+            out.append((alg, some_enc(cbc_only=(t == "agree1pu" and "+" in alg))))
+    return out
+
+
+# Every public name of the key classes / KeySet / JWKRegistry / joserfc.jwk, classified.  A name that
+# is not tabled is reported (fail closed): it may be an output path nobody scans.
+ENTRY_TABLE = {
+    "key": {
+        "output (scanned)": ["as_dict", "as_bytes", "as_der", "as_pem", "thumbprint", "kid", "alg", "keys", "ensure_kid",
+                             "curve_name", "curve_key_size", "key_type", "thumbprint_digest_method", "is_private"],
+        "accessor of the key's own material (by design, not a public-facing output)":
+            ["dict_value", "raw_value", "private_key", "public_key", "get", "__getitem__", "get_op_key", "exchange_derive_key"],
+        "check (raises; message scanned)": ["check_alg", "check_use", "check_key_op"],
+        "constructor": ["generate_key", "import_key", "validate_dict_key"],
+        "class data": ["binding", "operation_registry", "param_registry", "value_registry", "required_fields", "private_only_fields"],
+    },
+    "KeySet": {"output (scanned)": ["as_dict"], "constructor": ["generate_key_set", "import_key_set"],
+               "accessor": ["get_by_kid", "pick_random_key", "keys", "__iter__", "__bool__"], "class data": ["algorithm_keys", "registry_cls"]},
+    "JWKRegistry": {"constructor": ["generate_key", "import_key"], "class data": ["key_types"]},
+    "jwk": {"names": ["JWKRegistry", "Key", "KeyCallable", "KeyFlexible", "OctKey", "RSAKey", "ECKey", "OKPKey", "KeySet", "guess_key"]},
+}
+DUNDERS = ["__repr__", "__str__", "__format__", "__bytes__", "__iter__", "__getitem__", "__bool__", "__len__", "__contains__",
+           "__eq__", "__hash__", "__reduce__", "__reduce_ex__", "__getstate__", "__index__", "__int__", "__dir__", "__getattr__"]
+
+
+def untabled_entries():
+    import joserfc.jwk as J
+    from joserfc.jwk import OctKey, RSAKey, ECKey, OKPKey, KeySet, JWKRegistry
+    out = []
+
+    def names_of(cls):
+        pub = [n for n in dir(cls) if not n.startswith("_")]
+        for n in DUNDERS:       # special methods defined by the library itself
+            for c in cls.__mro__:
+                if n in c.__dict__ and getattr(c, "__module__", "").startswith("joserfc"):
+                    pub.append(n)
+                    break
+        return pub
+    tabled = {k: {n for l in v.values() for n in l} for k, v in ENTRY_TABLE.items()}
+    for cls in (OctKey, RSAKey, ECKey, OKPKey):
+        out += ["%s.%s" % (cls.__name__, n) for n in names_of(cls) if n not in tabled["key"]]
+    out += ["KeySet.%s" % n for n in names_of(KeySet) if n not in tabled["KeySet"]]
+    out += ["JWKRegistry.%s" % n for n in names_of(JWKRegistry) if n not in tabled["JWKRegistry"]]
+    out += ["jwk.%s" % n for n in getattr(J, "__all__", []) if n not in tabled["jwk"]]
+    return sorted(set(out))
+
+
+def describe(k):
+    """what a log line / debugger / template shows of a key object"""
+    from joserfc.jwk import KeySet
+    ks = KeySet([k])
+    return {"repr": repr(k), "str": str(k), "format": format(k), "ascii": ascii(k), "kid": k.kid, "alg": k.alg, "keys()": list(k.keys()),
+            "key_type": k.key_type, "curve_name": getattr(k, "curve_name", None), "curve_key_size": getattr(k, "curve_key_size", None),
+            "digest": k.thumbprint_digest_method, "is_private": k.is_private,
+            "KeySet.repr": repr(ks), "KeySet.str": str(ks), "KeySet.format": format(ks), "KeySet.bool": bool(ks),
+            "public_key.repr": repr(k.public_key) if k.key_type != "oct" else None}
 
 
 def export_ops(e):
@@ -646,6 +796,7 @@ def export_ops(e):
         "KeySet.as_dict(private=False)": lambda k: KeySet([k]).as_dict(private=False),
         "KeySet.as_dict(private=False, **params)": lambda k: KeySet([k]).as_dict(private=False, use="sig"),
         "thumbprint()": lambda k: k.thumbprint(),
+        "repr/str/kid/alg/keys()/KeySet repr": describe,
         "ensure_kid();kid": lambda k: (k.ensure_kid(), k.kid)[1],
         "KeySet;kid": lambda k: (KeySet([k]), k.kid)[1],
     }
@@ -688,8 +839,49 @@ def token_ops(e):
                 {"protected": {"alg": alg, "b64": False, "crit": ["b64"]}}, PAYLOAD, KeySet([k]), algorithms=A)
             ops["jwt.encode[%s]" % alg] = lambda k, alg=alg, A=A: jwt.encode({"alg": alg}, CLAIMS, k, algorithms=A)
             ops["jwt.encode[%s,KeySet]" % alg] = lambda k, alg=alg, A=A: jwt.encode({"alg": alg}, CLAIMS, KeySet([k]), algorithms=A)
+    def reprs(*objs):
+        out = {}
+        for i, o in enumerate(objs):
+            out["%d:%s" % (i, type(o).__name__)] = [repr(o), str(o), format(o), ascii(o)]
+        return out
+    if not e.public_only and sig_algs(e):
+        a0 = sig_algs(e)[0]
+
+        def consumed_jws(k, a0=a0):
+            tok = jws.serialize_compact({"alg": a0}, PAYLOAD, k, algorithms=[a0])
+            o1 = jws.deserialize_compact(tok, k, algorithms=[a0])
+            o2 = jws.deserialize_json(jws.serialize_json({"protected": {"alg": a0}}, PAYLOAD, k, algorithms=[a0]), k, algorithms=[a0])
+            t = jwt.decode(jwt.encode({"alg": a0}, CLAIMS, k, algorithms=[a0]), k, algorithms=[a0])
+            return reprs(o1, o2, t, getattr(o1, "protected", None), getattr(t, "header", None), getattr(t, "claims", None))
+        ops["repr/str of consumed JWS / JWT objects[%s]" % a0] = consumed_jws
+    if not e.public_only and [x for x in enc_algs(e) if not x[0].startswith("ECDH-1PU")]:
+        a1, e1 = [x for x in enc_algs(e) if not x[0].startswith("ECDH-1PU")][0]
+
+        def consumed_jwe(k, a1=a1, e1=e1):
+            tok = jwe.encrypt_compact({"alg": a1, "enc": e1}, PAYLOAD, k, algorithms=[a1, e1])
+            o1 = jwe.decrypt_compact(tok, k, algorithms=[a1, e1])
+            o = jwe.FlattenedJSONEncryption({"enc": e1}, PAYLOAD)
+            o.add_recipient({"alg": a1}, k)
+            o2 = jwe.decrypt_json(jwe.encrypt_json(o, None, algorithms=[a1, e1]), k, algorithms=[a1, e1])
+            return reprs(o1, o2, o1.recipient, o2.recipients[0], o, o.recipients[0], o1.protected, o2.recipients[0].header)
+        ops["repr/str of JWE objects and recipients[%s,%s]" % (a1, e1)] = consumed_jwe
     for alg, enc in enc_algs(e):
         A = [alg, enc]
+        if alg.startswith("ECDH-1PU"):
+            # sender key generated on the spot (captured by capture_generated, so its d is searched for as well)
+            def onepu(k, alg=alg, enc=enc, A=A, ser="compact"):
+                sender = type(k).generate_key(k.curve_name)
+                if ser == "compact":
+                    return jwe.encrypt_compact({"alg": alg, "enc": enc, "skid": "sender-1"}, PAYLOAD, k, algorithms=A, sender_key=sender)
+                o = (jwe.FlattenedJSONEncryption if ser == "flattened" else jwe.GeneralJSONEncryption)({"enc": enc}, PAYLOAD)
+                o.add_recipient({"alg": alg}, k)
+                if ser == "general" and "+" in alg:
+                    o.add_recipient({"alg": alg, "typ": "second"}, k)
+                return jwe.encrypt_json(o, None, algorithms=A, sender_key=sender)
+            ops["jwe.encrypt_compact[%s,%s,sender]" % (alg, enc)] = onepu
+            ops["jwe.encrypt_json.flattened[%s,%s,sender]" % (alg, enc)] = lambda k, f=onepu: f(k, ser="flattened")
+            ops["jwe.encrypt_json.general[%s,%s,sender]" % (alg, enc)] = lambda k, f=onepu: f(k, ser="general")
+            continue
         ops["jwe.encrypt_compact[%s,%s]" % (alg, enc)] = lambda k, alg=alg, enc=enc, A=A: jwe.encrypt_compact(
             {"alg": alg, "enc": enc}, PAYLOAD, k, algorithms=A)
         ops["jwe.encrypt_compact[%s,%s,KeySet]" % (alg, enc)] = lambda k, alg=alg, enc=enc, A=A: jwe.encrypt_compact(
@@ -834,18 +1026,12 @@ def find_epks(o, acc, depth=0):
     return acc
 
 
-_drafts_registered = []
-
-
 def run_epk_token(spec):
     """-> (result, [(violation kind, text)], number of epk members checked)"""
     from joserfc import jwe
     from joserfc.rfc7516.message import perform_encrypt
     from joserfc.rfc7516.compact import represent_compact
-    if not _drafts_registered:
-        from joserfc.drafts.jwe_ecdh_1pu import register_ecdh_1pu
-        register_ecdh_1pu()
-        _drafts_registered.append(True)
+    register_drafts()
     alg, enc, ser = spec["alg"], spec["enc"], spec["ser"]
     registry = jwe.JWERegistry(algorithms=[alg, enc])
     rks = [make_key(r["rk"]) for r in spec["recipients"]]
@@ -900,6 +1086,254 @@ def run_epk_token(spec):
 
 
 # ----------------------------------------------------------------------------
+# error messages and warnings produced while a private key is in play
+# ----------------------------------------------------------------------------
+def exc_texts(e, depth=0):
+    """everything an exception shows to a log: str, repr, args, JoseError fields, notes, chained causes"""
+    out = [str(e), repr(e)]
+    for a in getattr(e, "args", ()):
+        out.append(a if isinstance(a, (str, bytes)) else repr(a))
+    for f in ("error", "description"):
+        v = getattr(e, f, None)
+        if v is not None:
+            out.append(v if isinstance(v, (str, bytes)) else repr(v))
+    out += list(getattr(e, "__notes__", []) or [])
+    if depth < 3:
+        for c in (e.__cause__, e.__context__):
+            if c is not None:
+                out += exc_texts(c, depth + 1)
+    return out
+
+
+def error_ops(e, rng, other):
+    """name -> thunk; operations that are EXPECTED to fail (or warn) while handling the private key of e.
+    `other`: another private entry of the same kind (for mismatching members)."""
+    from joserfc import jws, jwe, jwt
+    from joserfc.jwk import KeySet, JWKRegistry, OctKey
+    cls = key_class(e.kty)
+    ops = {}
+    j = native_jwk(e.kty, e.native)
+    jo = native_jwk(other.kty, other.native) if other is not None else dict(j)
+    reg = list(cls.value_registry)
+
+    def imp(name, d):
+        ops["import_key[%s]" % name] = lambda d=d: cls.import_key(dict(d))
+        ops["JWKRegistry.import_key[%s]" % name] = lambda d=d: JWKRegistry.import_key(dict(d))
+        ops["KeySet.import_key_set[good, %s]" % name] = lambda d=d: KeySet.import_key_set({"keys": [dict(j), dict(d)]})
+    for m in reg:
+        if m in j:
+            imp("%s=int" % m, {**j, m: 12345})
+            imp("%s=list" % m, {**j, m: [j[m]]})
+            imp("%s bad base64" % m, {**j, m: j[m] + "!*"})
+            imp("%s truncated" % m, {**j, m: j[m][:-3]})
+            if jo.get(m) not in (None, j[m]) and jo.get("crv") == j.get("crv"):
+                imp("%s of another key" % m, {**j, m: jo[m]})
+            if m not in SPEC_PRIVATE[e.kty] or m in ("q", "dp"):
+                imp("%s missing" % m, {k: v for k, v in j.items() if k != m})
+    imp("use=list", {**j, "use": ["sig"], "key_ops": ["sign"]})
+    imp("use/key_ops conflict", {**j, "use": "enc", "key_ops": ["sign"]})
+    imp("key_ops=str", {**j, "key_ops": "sign"})
+    imp("kid=dict", {**j, "kid": {"nested": j}})
+    imp("unknown crv", {**j, "crv": "P-999"})
+    imp("kty missing", {k: v for k, v in j.items() if k != "kty"})
+    imp("kty other", {**j, "kty": "EC" if e.kty != "EC" else "RSA"})
+    if e.kty != "oct":
+        S = _ser()
+        enc_pem = e.native.private_bytes(S.Encoding.PEM, S.PrivateFormat.PKCS8, S.BestAvailableEncryption(b"right"))
+        pem = native_bytes(e.native, True, False)
+        ops["import_key[encrypted PEM, no password]"] = lambda: cls.import_key(enc_pem)
+        ops["import_key[encrypted PEM, wrong password]"] = lambda: cls.import_key(enc_pem, password="wrong")
+        lines = pem.split(b"\n")
+        ops["import_key[PEM, blank line after the first body line]"] = lambda: cls.import_key(b"\n".join(lines[:2] + [b""] + lines[2:]))
+        ops["import_key[PEM, Proc-Type style header then body]"] = lambda: cls.import_key(b"\n".join([lines[0], b"Comment: exported", b""] + lines[1:]))
+        ops["import_key[PEM, garbage character]"] = lambda: cls.import_key(pem[:60] + b"*" + pem[60:])
+        for frac in (3, 5, 7, 9):
+            cut = len(pem) * frac // 10
+            ops["import_key[PEM cut at %d/10]" % frac] = lambda cut=cut: cls.import_key(pem[:cut] + b"\n-----END PRIVATE KEY-----\n")
+            ops["import_key[PEM cut at %d/10, no END]" % frac] = lambda cut=cut: cls.import_key(pem[:cut])
+        ops["import_key[PEM of another class]"] = lambda: key_class({"RSA": "EC", "EC": "OKP", "OKP": "RSA"}[e.kty]).import_key(pem)
+        ops["OctKey.import_key[private PEM text] (warns)"] = lambda: OctKey.import_key(pem).as_dict(private=False)
+        ops["import_key[DER + junk]"] = lambda: cls.import_key(native_bytes(e.native, True, True)[:-7] + b"junkjunk")
+    restricted = {"use": "sig", "alg": "only-this-alg", "key_ops": ["verify"]}
+    if not e.recipe["how"].startswith("generate"):
+        def rk():
+            return make_key({**e.recipe, "parameters": restricted}) if e.recipe["how"] != "jwk" else \
+                cls.import_key({**json.loads(e.recipe["data"]), **restricted})
+        ops["check_use('enc')"] = lambda: rk().check_use("enc")
+        ops["check_alg('other')"] = lambda: rk().check_alg("other")
+        ops["check_key_op('sign')"] = lambda: rk().check_key_op("sign")
+        ops["check_key_op('bogus')"] = lambda: rk().check_key_op("bogus")
+        ops["serialize with restricted key"] = lambda: jws.serialize_compact({"alg": (sig_algs(e) or ["HS256"])[0]}, PAYLOAD, rk())
+    key = e.key
+    wrong_sig = [a for a, t in JWS_TABLE.items() if t and t[0] != e.kty]
+    for a in rng.sample(wrong_sig, 3):
+        ops["jws.serialize_compact[%s, wrong key type]" % a] = lambda a=a: jws.serialize_compact({"alg": a}, PAYLOAD, key, algorithms=[a])
+    wrong_enc = [a for a, t in JWE_ALG_TABLE.items() if (t == "rsa") != (e.kty == "RSA") or (e.kty == "oct") != (isinstance(t, tuple) or t in ("dir", "pbes2"))]
+    for a in rng.sample(wrong_enc, 3):
+        ops["jwe.encrypt_compact[%s, wrong key]" % a] = lambda a=a: jwe.encrypt_compact({"alg": a, "enc": "A128GCM"}, PAYLOAD, key, algorithms=[a, "A128GCM"])
+    if e.kty == "oct":
+        for a, t in JWE_ALG_TABLE.items():
+            if isinstance(t, tuple) and t[1] != len(e.native):
+                ops["jwe.encrypt_compact[%s, wrong key size]" % a] = lambda a=a: jwe.encrypt_compact(
+                    {"alg": a, "enc": "A128GCM"}, PAYLOAD, key, algorithms=[a, "A128GCM"])
+        ops["jwe.encrypt_compact[dir, wrong key size]"] = lambda: jwe.encrypt_compact(
+            {"alg": "dir", "enc": "A192CBC-HS384" if len(e.native) != 48 else "A128GCM"}, PAYLOAD, key, algorithms=["dir", "A192CBC-HS384", "A128GCM"])
+        ops["key given as str (deprecation warning)"] = lambda: jws.serialize_compact({"alg": "HS256"}, PAYLOAD, b64u(e.native))
+    ops["header not allowed"] = lambda: jws.serialize_compact({"alg": (sig_algs(e) or ["HS256"])[0], "x-unknown": b"\xff"}, PAYLOAD, key)
+    ops["KeySet.get_by_kid(unknown)"] = lambda: KeySet([e.fresh()]).get_by_kid("no-such-kid")
+    # consuming side: tampered tokens handled with the private key
+    sa = sig_algs(e)
+    if sa:
+        def tampered_jws(how):
+            tok = jws.serialize_compact({"alg": sa[0]}, PAYLOAD, key, algorithms=sa[:1])
+            h, p, sg = tok.split(".")
+            if how == "sig":
+                tok = ".".join([h, p, sg[:-4] + ("AAAA" if not sg.endswith("AAAA") else "BBBB")])
+            elif how == "kid":
+                tok = jws.serialize_compact({"alg": sa[0], "kid": "other-kid"}, PAYLOAD, key, algorithms=sa[:1])
+                return jws.deserialize_compact(tok, KeySet([e.fresh()]), algorithms=sa[:1])
+            elif how == "short":
+                tok = ".".join([h, p, sg[:7]])
+            return jws.deserialize_compact(tok, key, algorithms=sa[:1])
+        for how in ("sig", "kid", "short"):
+            ops["jws.deserialize_compact[tampered %s]" % how] = lambda how=how: tampered_jws(how)
+        ops["jwt.decode[tampered]"] = lambda: jwt.decode(jwt.encode({"alg": sa[0]}, CLAIMS, key, algorithms=sa[:1])[:-6] + "AAAAAA", key, algorithms=sa[:1])
+    ea = [x for x in enc_algs(e) if not x[0].startswith("ECDH-1PU")]
+    if ea and not e.public_only:
+        alg, enc = ea[0]
+
+        def tampered_jwe(part):
+            tok = jwe.encrypt_compact({"alg": alg, "enc": enc}, PAYLOAD, key, algorithms=[alg, enc])
+            segs = tok.split(".")
+            i = {"header": 0, "ek": 1, "iv": 2, "ct": 3, "tag": 4}[part]
+            segs[i] = (segs[i][:-3] + "AAA") if segs[i] and not segs[i].endswith("AAA") else "AAAA"
+            return jwe.decrypt_compact(".".join(segs), key, algorithms=[alg, enc])
+        for part in ("ek", "iv", "ct", "tag", "header"):
+            ops["jwe.decrypt_compact[tampered %s]" % part] = lambda part=part: tampered_jwe(part)
+    ops["as_dict(private=True) when public-only"] = lambda: cls.import_key(native_jwk(e.kty, e.native, private=False)).as_dict(private=True) \
+        if e.kty != "oct" else (_ for _ in ()).throw(ValueError("n/a"))
+    return ops
+
+
+def run_error_op(thunk):
+    """-> (outcome, texts to scan)"""
+    import warnings
+    with warnings.catch_warnings(record=True) as ws:
+        warnings.simplefilter("always")
+        r = call(thunk)
+    texts = []
+    for w in ws:
+        texts += [str(w.message), repr(w.message), "%s:%s" % (w.filename, w.lineno)]
+    if r[0] == "err":
+        texts += exc_texts(r[1])
+    return r, texts
+
+
+# ----------------------------------------------------------------------------
+# histories
+# ----------------------------------------------------------------------------
+def history_plan(rng, kty, n):
+    """a random sequence of exporting calls on one key object"""
+    ps_pool = [{}, {}, {"use": "sig"}, dict(CALLER_PARAMS), {"d": "caller-d", "k": "caller-k"}, {"kid": "caller-kid"}]
+    ops = []
+    for _ in range(n):
+        r = rng.random()
+        if r < 0.45:
+            ops.append(("as_dict", False, rng.choice(ps_pool)))
+        elif r < 0.7:
+            ops.append(("as_dict", rng.choice([None, True, None, 0, 1]), rng.choice(ps_pool)))
+        elif r < 0.85:
+            ops.append(("ensure_kid",))
+        else:
+            ops.append(("thumbprint",))
+    ops.append(("as_dict", False, {}))
+    return ops
+
+
+def run_history_impl(key, ops, mutate_rng=None):
+    """-> list of ("dict"|"unit"|"str", result); every returned dict is mutated afterwards (top level):
+    the next export must not care"""
+    outs = []
+    for op in ops:
+        if op[0] == "as_dict":
+            r = call(lambda: key.as_dict(private=op[1], **op[2]))
+            snap = ("ok", json.loads(json.dumps(r[1]))) if r[0] == "ok" else r
+            outs.append(("dict", snap))
+            if r[0] == "ok" and mutate_rng is not None:
+                d = r[1]
+                how = mutate_rng.randrange(4)
+                if how == 0:
+                    d.clear()
+                elif how == 1:
+                    d["d"] = d["k"] = d["p"] = "mutated-by-caller"
+                elif how == 2:
+                    for m in list(d):
+                        if m not in ("kty",):
+                            d.pop(m)
+                else:
+                    d["kid"] = "mutated-kid"
+        elif op[0] == "ensure_kid":
+            outs.append(("unit", call(key.ensure_kid)))
+        else:
+            outs.append(("str", call(key.thumbprint)))
+    return outs
+
+
+ORDER_CHILD = """
+import sys, json
+sys.path.insert(0, %r)
+from props import c12
+print("C12ORDER " + json.dumps(c12.order_child(%r)))
+"""
+
+
+def order_child(order):
+    """Run in a FRESH interpreter: the first public export in the process is done by order[0], then the
+    other key types follow (class-level caches shared between key classes show up only this way)."""
+    from joserfc.jwk import KeySet
+    args = {"oct": 256, "RSA": 1024, "EC": "P-384", "OKP": "X25519"}
+    problems = []
+    keys = []
+    for kty in order:
+        k = key_class(kty).generate_key(args[kty])
+        nat = k.raw_value if kty == "oct" else k.private_key
+        keys.append((kty, k, native_secrets(kty, nat)))
+    for rnd in range(2):
+        for kty, k, secrets in keys:
+            outs = {"as_dict(private=False)": k.as_dict(private=False)}
+            if rnd:
+                outs["as_dict()"] = None if k.as_dict() else None      # a private export in between
+                outs["as_dict(private=False) again"] = k.as_dict(private=False)
+            if kty != "oct":
+                outs["as_pem(private=False)"] = k.as_pem(private=False)
+            for name, out in outs.items():
+                if out is None:
+                    continue
+                found = scan(out, secrets)
+                bad = [m for m in SPEC_PRIVATE[kty] if isinstance(out, dict) and m in out]
+                if found or bad:
+                    problems.append("%s of the %s key after the order %s (round %d): private members %s, private values %s" % (
+                        name, kty, "->".join(order), rnd, bad, found[:1]))
+        ks = KeySet([k for _, k, _ in keys]).as_dict(private=False)
+        found = scan(ks, [s for _, _, ss in keys for s in ss])
+        bad = [(kty, m) for (kty, _, _), d in zip(keys, ks["keys"]) for m in SPEC_PRIVATE[kty] if m in d]
+        if found or bad:
+            problems.append("KeySet.as_dict(private=False) after the order %s: private members %s, private values %s" % ("->".join(order), bad, found[:1]))
+    return problems
+
+
+def run_order_child(order):
+    import subprocess
+    code = ORDER_CHILD % (lib.os.path.dirname(lib.os.path.dirname(lib.os.path.abspath(__file__))), list(order))
+    p = subprocess.run([lib.PY, "-W", "ignore", "-c", code], env=lib.child_env(), stdout=subprocess.PIPE, stderr=subprocess.STDOUT,
+                       text=True, timeout=120)
+    for line in p.stdout.splitlines():
+        if line.startswith("C12ORDER "):
+            return json.loads(line[9:]), None
+    return None, p.stdout[-1500:]
+
+
+# ----------------------------------------------------------------------------
 def run(ctx):
     from joserfc import jwe
     from joserfc.jwk import KeySet
@@ -922,6 +1356,15 @@ def run(ctx):
     dist = {"keys": 0, "exports_scanned": 0, "tokens_scanned": 0, "must_raise": 0, "as_dict_cases": 0,
             "keyset_cases": 0, "thumb_cases": 0, "ensure_kid_cases": 0, "epk_cases": 0, "as_bytes_cases": 0,
             "needles_per_secret": 0, "ops_not_applicable": 0}
+    register_drafts()
+    unt = untabled_entries() + ["algorithm " + a for a in untabled_algorithms()]
+    dist["untabled_entries"] = len(unt)
+    ctx.coverage["entry_table"] = ENTRY_TABLE
+    for u in unt:
+        ctx.violation({"kind": "untabled-entry", "entry": u},
+                      "%s is public but not classified in harness/props/c12.py (ENTRY_TABLE / algorithm tables): an output path "
+                      "that carries key material may go unscanned" % u,
+                      {"no_failing_input_found": True, "broken": "coverage table of the C12 check", "entry": u})
     zoo, skipped = build_zoo(ctx)
     dist["keys"] = len(zoo)
     if skipped:
@@ -934,6 +1377,18 @@ def run(ctx):
         ctx.violation({"kind": "private-material-in-output", "kty": e.kty, "op": opname.split("[")[0], "member": label.split(".")[-1]},
                       "%s of key %s contains private value %s (%s form); output: %s" % (opname, e.name, label, form, short(out)),
                       {"recipe": e.recipe, "op": opname, "found": found, "output": short(out, 2000), **(extra or {})})
+
+    # Observations outside the outputs enumerated by the statement (public JWK / key-set exports, public PEM/DER,
+    # epk, thumbprints and generated kids, JWS/JWE/JWT serializations): exception and warning texts, object
+    # representations.  They are scanned, but a hit is only COUNTED here - never a violation.
+    rnd_ = ctx.coverage.setdefault("recorded_not_demanded", {"hits": 0, "by_cause": {}, "samples": []})
+
+    def record_not_demanded(cause, e, opname, found, out):
+        rnd_["hits"] += 1
+        rnd_["by_cause"][cause] = rnd_["by_cause"].get(cause, 0) + 1
+        if len(rnd_["samples"]) < 6 and not any(x["cause"] == cause and x["kty"] == e.kty for x in rnd_["samples"]):
+            rnd_["samples"].append({"cause": cause, "kty": e.kty, "key": e.name, "op": opname, "private_value": found[0][0],
+                                    "form": found[0][1], "text": short(out, 300)})
 
     # ---- 1. direct oracle: taint scan over every exporting method and token operation
     for e in zoo:
@@ -951,7 +1406,10 @@ def run(ctx):
             out = r[1]
             dist["exports_scanned" if name in exp else "tokens_scanned"] += 1
             found = scan(out, secrets)
-            if found:
+            if found and name.startswith("repr/str"):
+                # object representations are not among the outputs the statement enumerates: recorded only
+                record_not_demanded("repr", e, name, found, out)
+            elif found:
                 leak(e, name, found, out)
             # structural: no private member NAME in a JWK exported as public
             if name in ("as_dict(private=False)", "as_dict()", "as_dict(private=False, **params)", "as_dict(**params)"):
@@ -1224,6 +1682,92 @@ def run(ctx):
                               {"recipe": rk_e.recipe, "ephemeral_recipe": eph_e.recipe if eph_e else None, "op": "prepare_ephemeral_key",
                                "alg": alg.name})
 
+    # ---- 4. error messages and warnings raised while a private key is handled
+    priv_entries = [e for e in zoo if not e.public_only and e.native is not None]
+    by_kind = {}
+    for e in priv_entries:
+        by_kind.setdefault((e.kty, e.crv), []).append(e)
+    chosen = []
+    for kk, lst in sorted(by_kind.items(), key=str):
+        chosen += (lst if not ctx.quick else rng.sample(lst, min(2, len(lst))))
+    for e in chosen:
+        others = [x for x in by_kind[(e.kty, e.crv)] if x.native is not e.native]
+        other = rng.choice(others) if others else None
+        for name, thunk in error_ops(e, rng, other).items():
+            r, texts = run_error_op(thunk)
+            ctx.note_case(("error", e.name, name))
+            dist["error_ops"] = dist.get("error_ops", 0) + 1
+            dist["error_ops_raised" if r[0] == "err" else "error_ops_returned"] = dist.get(
+                "error_ops_raised" if r[0] == "err" else "error_ops_returned", 0) + 1
+            dist["messages_scanned"] = dist.get("messages_scanned", 0) + len(texts)
+            secrets = e.secrets + (other.secrets if other is not None else [])
+            found = scan(texts, secrets) if texts else []
+            if found:
+                cause = "pyca-pem-error-echo" if any("Unable to load PEM file" in str(t) for t in texts) else (
+                    "exception-text" if r[0] == "err" else "warning-text")
+                record_not_demanded(cause, e, name, found, texts)
+
+    # ---- 5. histories: sequences of exports on one object (model: run_history), export orders across key types
+    for e in zoo:
+        if e.recipe["how"].startswith("generate"):
+            continue
+        for rep in range(ctx.scale(1, 4)):
+            key = e.fresh()
+            d0 = dict(key.dict_value)
+            with thumb_hook() as shim:
+                t0 = call(key.thumbprint)
+            thumbs = "[(%s, %s)]" % (c_kd(dict(shim.calls[0])), c_thumb(t0[1])) if t0[0] == "ok" and shim.calls else "[]"
+            ops = history_plan(rng, e.kty, rng.randrange(3, 8))
+            outs = run_history_impl(key, ops, mutate_rng=rng)
+            ops_t, outs_t = [], []
+            for op, (kind, r) in zip(ops, outs):
+                if op[0] == "as_dict":
+                    ops_t.append("OAsDict %s %s" % (c_pv(op[1]), c_kd(op[2])))
+                    outs_t.append("RDict %s" % c_res(r, c_kd))
+                elif op[0] == "ensure_kid":
+                    ops_t.append("OEnsureKid")
+                    outs_t.append("RUnit %s" % c_res(r, lambda _: "tt"))
+                else:
+                    ops_t.append("OThumbprint")
+                    outs_t.append("RStr %s" % c_res(r, c_thumb))
+            add("CHistory %s %s %s %s %s %s %s" % (KIND[e.kty], c_bool(key.is_private), c_kd(d0), thumbs, c_list(ops_t), c_list(outs_t),
+                                                  c_kd(dict(key.dict_value))), ("history", e.name, [o[0] + repr(o[1:2]) for o in ops]))
+            ctx.note_case(("history", e.name, rep, repr(ops)))
+            dist["history_cases"] = dist.get("history_cases", 0) + 1
+            first_pub = None
+            for op, (kind, r) in zip(ops, outs):
+                if op[0] != "as_dict" or op[1] is not False or r[0] != "ok":
+                    if op[0] == "as_dict" and op[1] is False:
+                        ctx.violation({"kind": "public-export-raises", "kty": e.kty, "op": "history"},
+                                      "as_dict(private=False) raised %r on %s after %r" % (r[1], e.name, ops), {"recipe": e.recipe, "op": "history", "ops": repr(ops)})
+                    continue
+                out = r[1]
+                found = scan(out, e.secrets)
+                bad = [m for m in SPEC_PRIVATE[e.kty] if m in out and m not in op[2]]
+                core = {k: v for k, v in out.items() if k != "kid"} if not op[2] else None   # exports without params are comparable
+                if first_pub is None and core is not None:
+                    first_pub = core
+                if found or bad or (core is not None and core != first_pub):
+                    ctx.violation({"kind": "private-material-after-history", "kty": e.kty, "op": "as_dict(private=False)"},
+                                  "after the calls %r on one %s object, as_dict(private=False) = %s (private members %s, private values %s, "
+                                  "same as the first public export: %s)" % (ops, e.name, short(out, 300), bad, found[:1], core is None or core == first_pub),
+                                  {"recipe": e.recipe, "op": "history", "ops": json.dumps(ops)})
+    import itertools
+    orders = list(itertools.permutations(["oct", "RSA", "EC", "OKP"]))
+    if ctx.quick:
+        orders = [o for o in orders if o in (("oct", "RSA", "EC", "OKP"), ("RSA", "OKP", "oct", "EC"), ("EC", "oct", "OKP", "RSA"), ("OKP", "EC", "RSA", "oct"))]
+    for order in orders:
+        problems, err = run_order_child(order)
+        ctx.note_case(("order", order))
+        dist["export_orders"] = dist.get("export_orders", 0) + 1
+        if problems is None:
+            ctx.violation({"kind": "order-child-crashed"}, "the fresh-interpreter export-order run crashed: " + (err or "")[-300:],
+                          {"no_failing_input_found": True, "broken": "harness (order child)", "output": err})
+            continue
+        for text in problems[:3]:
+            ctx.violation({"kind": "private-material-depends-on-export-order", "first": order[0]}, text,
+                          {"op": "order", "order": list(order)})
+
     # ---- 3. tokens made with CALLER-PROVIDED ephemeral keys, every representation, ECDH-ES / ECDH-1PU (+KW), all serializations
     for spec in epk_token_plan(ctx, zoo):
         r, problems, n_epk_seen = run_epk_token(spec)
@@ -1280,6 +1824,36 @@ def run(ctx):
 def replay(path):
     r = json.load(open(path))["replay"]
     print("replay:", {k: (v if k != "output" else "...") for k, v in r.items()})
+    if r.get("op") == "order":
+        problems, err = run_order_child(r["order"])
+        print("problems:", problems, err or "")
+        return 1 if (problems or problems is None) else 0
+    if r.get("op") == "history":
+        key = make_key(r["recipe"])
+        nat = key.raw_value if key.key_type == "oct" else key.private_key
+        secrets = native_secrets(key.key_type, nat) if nat is not None else []
+        ops = [tuple(o) for o in json.loads(r["ops"])] if r.get("ops", "").startswith("[[") else []
+        bad = 0
+        for op, (kind, res) in zip(ops, run_history_impl(key, ops)):
+            if op[0] == "as_dict" and op[1] is False:
+                print(op, "->", short(res[1], 300))
+                if res[0] != "ok" or scan(res[1], secrets) or [m for m in SPEC_PRIVATE[key.key_type] if m in res[1] and m not in op[2]]:
+                    bad = 1
+        return bad
+    if str(r.get("op", "")).startswith("error:"):
+        import random as _random
+        key = make_key(r["recipe"])
+        nat = key.raw_value if key.key_type == "oct" else key.private_key
+        e = Entry("replay", key.key_type, getattr(key, "curve_name", None), r["recipe"], nat, False, key=key)
+        ops = error_ops(e, _random.Random(0), None)
+        name = r["op"][6:]
+        if name not in ops:
+            print("operation %r not available standalone (needs a second key or another random choice)" % name)
+            return 1
+        res, texts = run_error_op(ops[name])
+        found = scan(texts, e.secrets)
+        print("texts:", short(texts, 1500)); print("private values found:", found)
+        return 1 if found else 0
     if r.get("op") == "epk-token":
         res, problems, n = run_epk_token(r["spec"])
         print("result:", res[0], short(res[1], 600))
